@@ -191,7 +191,7 @@ impl Gen {
             Ref::Id(m.sets[&h].id.clone())
         }
     }
-    fn r_ann(&self, rng: &mut Rng, m: &Model, h: usize) -> Ref {
+    pub fn r_ann(&self, rng: &mut Rng, m: &Model, h: usize) -> Ref {
         if let Some(t) = self.temp(rng, 'A', h) {
             return t;
         }
